@@ -1,3 +1,4 @@
+import D2P.Proofs.Hyperlink
 import D2P.Proofs.UnstyledWalk
 /-!
 # A style invariant of the walk, generic in the predicate on style lists
@@ -333,9 +334,8 @@ theorem openStep_sty {html : Bool} (S : StyleSpec html Q) (cfg : PartCfg) (hc : 
       · have := pure_ok ht; subst this; exact h) he
   · exact withTrue_sty _ s' r (fun t ht => noteLabel_sty S.nil s t x _ h ht) he
   · exact withTrue_sty _ s' r (fun t ht => noteLabel_sty S.nil s t x _ h ht) he
-  · exact withFalse_sty _ s' r (fun t ht => by
-      obtain ⟨tx, _, ht⟩ := bind_ok ht; obtain ⟨rn, _, ht⟩ := bind_ok ht
-      exact insertNewRun_sty S s t _ h ht) he
+  · exact withFalse_sty _ s' r (fun t ht => openHyperlink_preserves cfg (fun a id b ha hb => startRange_sty a b id ha hb)
+      (fun a tx b ha hb => insertNewRun_sty S a b tx ha (by rw [hc] at hb; exact hb)) (fun a id b ha hb => endRange_sty a b id ha hb) s t x roots h ht) he
   · exact withTrue_sty _ s' r (fun t ht => by obtain ⟨tx, _, ht⟩ := bind_ok ht; exact insertNewRun_sty S s t _ h ht) he
   · exact withTrue_sty _ s' r (fun t ht => by obtain ⟨tx, _, ht⟩ := bind_ok ht; exact insertNewRun_sty S s t _ h ht) he
   · exact withTrue_sty _ s' r (fun t ht => by obtain ⟨tx, _, ht⟩ := bind_ok ht; exact insertNewRun_sty S s t _ h ht) he
